@@ -495,7 +495,8 @@ def part_records(rep, thorough, rng, recs):
     for k, v in stats.items():
         if v == 0:
             raise MachineryError(f"vacuous record class {k}")
-    stv, bad = validate_records("BandsRec.tla", ftable.REC_CFG, recs, "c15")
+    strip = lambda rs: [{k: v for k, v in r.items() if k not in ("unit", "origin")} for r in rs]     # TLC sees integers only
+    stv, bad = validate_records("BandsRec.tla", ftable.REC_CFG, strip(recs), "c15")
     rep.add_tlc("c15_records", stv)
     rep.add_traces(len(recs))
     rep.part("c15_records", **stats)
@@ -508,14 +509,14 @@ def part_records(rep, thorough, rng, recs):
         else:
             key = r["origin"] + ":recorded"
         rep.violation(key, dict(record=r, failing_clauses=clauses))
-    rep.sample(next(r for r in recs if r["fn"] == "borders"))
+    rep.sample(next((r for r in recs if r["fn"] == "borders"), recs[0]))
     # binding self-test: a corrupted record must be reported
     cand = [r for r in recs if r["fn"] == "borders" and len(r["out"]) > 1][:1]
     if not cand:
         raise MachineryError("no get_borders record with two groups for the binding self-test")
     badrec = copy.deepcopy(cand)
     badrec[0]["out"] = badrec[0]["out"][:-1]
-    _, b2 = validate_records("BandsRec.tla", ftable.REC_CFG, badrec, "c15_selftest")
+    _, b2 = validate_records("BandsRec.tla", ftable.REC_CFG, strip(badrec), "c15_selftest")
     if 0 not in b2:
         raise MachineryError("binding self-test failed: corrupted get_borders record accepted")
     rep.part("binding_selftest", corrupted_record_rejected=b2[0])
